@@ -73,7 +73,7 @@ theorem TOk.upd_priv {pc : PC} (h : TOk c m L pc) {n : Nat} (x : Option Nat) (hn
   constructor <;> intros <;> (try dsimp only at *) <;> grind [upd, Alloc]
 
 /-- K2: the physical unlink of the marked node `x` behind the unmarked chain node `p`. -/
-theorem GOk.unlink (g : GOk c m tb k2 L) {p x : Nat} (hp : p ∈ L) (hpm : m.mark p = false) (hpx : m.next p = some x)
+theorem GOk.unlink (g : GOk c m tb k2 L) {p x : Nat} (hp : p ∈ L) (_hpm : m.mark p = false) (hpx : m.next p = some x)
     (hxm : m.mark x = true) :
     GOk c { m with next := upd m.next p (m.next x) } tb k2 (L.erase x) := by
   have hnd := g.nodup
@@ -98,7 +98,7 @@ theorem TOk.unlink {pc : PC} (h : TOk c m L pc) (g : GOk c m tb k2 L) {p x : Nat
   constructor <;> intros <;> (try dsimp only at *) <;> grind [upd, Alloc]
 
 /-- K3: the successful CAS of `link_node`. -/
-theorem GOk.link (g : GOk c m tb k2 L) {p n : Nat} (hp : p ∈ L) (hn : n ∉ L) (hna : Alloc m n) (hnm : m.mark n = false)
+theorem GOk.link (g : GOk c m tb k2 L) {p n : Nat} (hp : p ∈ L) (hn : n ∉ L) (hna : Alloc m n) (_hnm : m.mark n = false)
     (hnn : m.next n = m.next p) (hpn : KLt m.so m.uk p n) (hnc : ∀ x, m.next p = some x → KLt m.so m.uk n x) :
     GOk c { m with next := upd m.next p (some n) } tb k2 (Michael.insAfter p n L) := by
   have hnd := g.nodup
